@@ -30,7 +30,7 @@ REQUIRED_OBS = ["sends_between_segments", "segmentations_ok", "cuts_inside_heade
                 "log_level_changed_between_segments",
                 "subscribed_from_the_connected_notification",
                 "subscriber_edits_the_messages_in_place",
-                "sibling_subscriber_failing_meanwhile"]
+                "sibling_subscriber_failing_meanwhile", "two_subscribers_in_lock_step"]
 SOAK = True   # also judged by the whole-run monitors of the soak sessions (vf/soak.py)
 BUDGET = {"quick": 100, "thorough": 1500}
 
@@ -84,7 +84,8 @@ RAISER_TEXT = "the other message subscriber fails"
 
 
 def deliver(gen, stream, cuts, gap, debug=False, delays=None, send_in_gap=False, duo=False,
-            late_sub=False, flip_log=False, sub_on_connect=False, mutate=False, raiser=None):
+            late_sub=False, flip_log=False, sub_on_connect=False, mutate=False, raiser=None,
+            lockstep=False):
     """Deliver `stream` cut at `cuts`; returns (deliveries, closed, errors, status).
     send_in_gap: the application submits a command after every segment (sending and receiving
     go on at the same time on one connection).
@@ -95,6 +96,9 @@ def deliver(gen, stream, cuts, gap, debug=False, delays=None, send_in_gap=False,
     flip_log: the application changes the library's log level (WARNING <-> DEBUG) between the
     segments, as a "set log level" service does at run time.
     mutate: the subscriber changes every message object it is handed, in place.
+    lockstep: a second message subscriber that works hand in hand with the recording one: for
+    every frame each of them waits until the other has been handed the same frame (two halves
+    of one application that meet at a barrier).
     raiser: a second message subscriber that fails for every frame ("all") or every other one
     ("odd"), at once or after a loop turn ("late") - while the recording one may still be busy.
     sub_on_connect: the message subscriber is registered by a connection subscriber, from inside
@@ -113,6 +117,26 @@ def deliver(gen, stream, cuts, gap, debug=False, delays=None, send_in_gap=False,
         w.mutate_msgs = mutate
         if delays:
             w.msg_delays = list(delays)
+        if lockstep:
+            evs, cnt = {}, {"a": 0, "b": 0}
+
+            def ev(i, who):
+                return evs.setdefault((i, who), asyncio.Event())
+
+            async def gate():
+                i = cnt["a"]
+                cnt["a"] += 1
+                ev(i, "a").set()
+                await ev(i, "b").wait()
+
+            async def partner(hdr, msg):
+                i = cnt["b"]
+                cnt["b"] += 1
+                ev(i, "b").set()
+                await ev(i, "a").wait()
+            w.msg_gate = gate
+            w._partner = partner
+            w.sock.subscribe_on_message_received(partner)
         if raiser:
             seen = []
 
@@ -240,6 +264,11 @@ def cases(tier, seed):
                            [0.05] * 8):
                 yield {"k": "cuts", "gen": gen, "stream": sname, "gap": "same_turn",
                        "cuts": [[], [n // 2]], "delays": delays}
+            # two subscribers that wait for each other on every frame
+            for gap in ("same_turn", "turn1", "quiesce"):
+                yield {"k": "cuts", "gen": gen, "stream": sname, "gap": gap,
+                       "cuts": [[], [n // 2], [n // 3, 2 * n // 3], list(range(1, n))],
+                       "lockstep": True}
             # ... while another subscriber of the same socket fails for the same frames
             for raiser in ("all", "odd", "late"):
                 yield {"k": "cuts", "gen": gen, "stream": sname, "gap": "same_turn",
@@ -352,7 +381,9 @@ def run_case(case):
                                             case.get("flip_log", False),
                                             case.get("sub_on_connect", False),
                                             case.get("mutate", False),
-                                            case.get("raiser"))
+                                            case.get("raiser"), case.get("lockstep", False))
+        if case.get("lockstep"):
+            obs["two_subscribers_in_lock_step"] = obs.get("two_subscribers_in_lock_step", 0) + 1
         if case.get("raiser"):
             obs["sibling_subscriber_failing_meanwhile"] = obs.get(
                 "sibling_subscriber_failing_meanwhile", 0) + 1
